@@ -664,30 +664,53 @@ Proof.
 Qed.
 
 (** ** top level *)
-Definition ctx_wf (cx : context) : bool := Nat.leb (max_args cx) 10.
-
 Lemma top_task_ok s cx : task_ok s cx (TGeneral (walker_state cx) top_opts 0).
 Proof. split; [cbn; lia | split; [apply good_walker_state | exact I]]. Qed.
 
-(** The fixed fuel [parse_fuel s = 8 * length s + 40] of the model is enough
-    for every context whose specifications have at most 10 argument slots. *)
-Theorem parse_top_terminates s tol cx : ctx_wf cx = true ->
-  parse_top s tol cx (walker_state cx) <> OutOfFuel.
+(** [fuel_unit cx = 8 + max_args cx] satisfies the two constraints of
+    [run_fuel_enough] for EVERY context *)
+Lemma fuel_unit_ok cx : 4 <= fuel_unit cx /\ max_args cx + 6 <= 2 * fuel_unit cx.
+Proof. unfold fuel_unit. lia. Qed.
+
+(** what the model's own fuel pays for: a task at position [p] whose constant
+    is at most [fuel_base cx = 40 + max_args cx] *)
+Lemma parse_fuel_need s cx t :
+  cst (fuel_unit cx) t <= fuel_base cx -> need s (fuel_unit cx) t <= parse_fuel s cx.
 Proof.
-  intros WF. apply Nat.leb_le in WF. unfold parse_top. rewrite parse_content_oof.
-  apply (run_fuel_enough s tol cx 8); [lia | lia | apply top_task_ok|].
-  unfold need, W, parse_fuel. cbn [task_pos cst]. lia.
+  intros H. unfold need, W, parse_fuel. rewrite (Nat.mul_comm (length s)).
+  assert (fuel_unit cx * (length s - task_pos t) <= fuel_unit cx * length s) by (apply Nat.mul_le_mono_l; lia).
+  lia.
+Qed.
+
+(** a task reachable from a top-level parse, started with the model's own fuel,
+    does not run out of it *)
+Theorem parse_fuel_enough s tol cx t :
+  task_ok s cx t -> cst (fuel_unit cx) t <= fuel_base cx ->
+  run s tol cx (parse_fuel s cx) t <> OutOfFuel.
+Proof.
+  intros Ht H. destruct (fuel_unit_ok cx) as [A4 AM].
+  apply (run_fuel_enough s tol cx (fuel_unit cx)); [exact A4 | exact AM | exact Ht|].
+  apply parse_fuel_need. exact H.
+Qed.
+
+(** The fuel [parse_fuel s cx = length s * (8 + max_args cx) + 40 + max_args cx]
+    of the model is enough for every string and EVERY context. *)
+Theorem parse_top_terminates s tol cx : parse_top s tol cx (walker_state cx) <> OutOfFuel.
+Proof.
+  unfold parse_top. rewrite parse_content_oof.
+  apply parse_fuel_enough; [apply top_task_ok|].
+  cbn [cst]. unfold fuel_unit, fuel_base. lia.
 Qed.
 
 (** Tolerant parsing of any string returns a node list: it does not run out of
     fuel, raises nothing, does not return [None]. *)
-Theorem C06_total_proof s cx : ctx_wf cx = true ->
+Theorem C06_total_proof s cx :
   exists nl p, parse_top s true cx (walker_state cx) = Ok (ONode (Some nl)) p.
 Proof.
-  intros WF. pose proof (parse_top_terminates s true cx WF) as T. unfold parse_top in *.
+  pose proof (parse_top_terminates s true cx) as T. unfold parse_top in *.
   rewrite parse_content_oof in T.
-  pose proof (run_shaped s true cx (parse_fuel s) _ (top_task_ok s cx)) as Sh. cbn [kind_of] in Sh.
-  destruct (run s true cx (parse_fuel s) (TGeneral (walker_state cx) top_opts 0))
+  pose proof (run_shaped s true cx (parse_fuel s cx) _ (top_task_ok s cx)) as Sh. cbn [kind_of] in Sh.
+  destruct (run s true cx (parse_fuel s cx) (TGeneral (walker_state cx) top_opts 0))
     as [[[n|]|c1 c2 c3 c4|a] p|e p|p|k|]; cbn [shaped] in Sh; try contradiction; try congruence.
   - exists n, p. reflexivity.
   - cbn [parse_content]. destruct (pe_nodes e) as [n|]; [|congruence]. eexists _, _. reflexivity.
@@ -695,14 +718,14 @@ Qed.
 
 (** Strict parsing of any string returns a node list or a parse error that
     carries the nodes read so far. *)
-Theorem parse_top_strict_proof s cx : ctx_wf cx = true ->
+Theorem parse_top_strict_proof s cx :
   (exists nl p, parse_top s false cx (walker_state cx) = Ok (ONode (Some nl)) p) \/
   (exists e p nl, parse_top s false cx (walker_state cx) = PErr e p /\ pe_nodes e = Some nl).
 Proof.
-  intros WF. pose proof (parse_top_terminates s false cx WF) as T. unfold parse_top in *.
+  pose proof (parse_top_terminates s false cx) as T. unfold parse_top in *.
   rewrite parse_content_oof in T.
-  pose proof (run_shaped s false cx (parse_fuel s) _ (top_task_ok s cx)) as Sh. cbn [kind_of] in Sh.
-  destruct (run s false cx (parse_fuel s) (TGeneral (walker_state cx) top_opts 0))
+  pose proof (run_shaped s false cx (parse_fuel s cx) _ (top_task_ok s cx)) as Sh. cbn [kind_of] in Sh.
+  destruct (run s false cx (parse_fuel s cx) (TGeneral (walker_state cx) top_opts 0))
     as [[[n|]|c1 c2 c3 c4|a] p|e p|p|k|]; cbn [shaped] in Sh; try contradiction; try congruence.
   - left. exists n, p. reflexivity.
   - right. cbn [parse_content]. destruct (pe_nodes e) as [n|] eqn:E; [|congruence]. exists e, p, n. auto.
@@ -712,6 +735,6 @@ Qed.
 Theorem parse_top_pos_proof s tol cx v p :
   parse_top s tol cx (walker_state cx) = Ok v p -> p <= length s.
 Proof.
-  intros E. pose proof (run_bounded s tol cx (parse_fuel s) _ (top_task_ok s cx)) as B.
+  intros E. pose proof (run_bounded s tol cx (parse_fuel s cx) _ (top_task_ok s cx)) as B.
   apply (pc_bounded s tol) in B. unfold parse_top in E. rewrite E in B. cbn [bounded] in B. tauto.
 Qed.
